@@ -305,3 +305,11 @@ Proof.
   - intro H. unfold FD_BHSize in H. lia.
 Qed.
 End Info.
+
+(* LZ4F_resetDecompressionContext from any reachable state, failed or not *)
+Theorem reset_restores_invariant bdec s failed :
+  Reach bdec s failed -> wf (reset s) /\ Reach bdec (reset s) false.
+Proof.
+  intro R. split; [|apply R_reset with (b := failed); exact R].
+  destruct (reach_wf bdec s failed R) as [[H1 H2] _]. apply wf_reset; assumption.
+Qed.
